@@ -284,6 +284,13 @@ impl<const NB_PROOFS: usize> LightAggregator<NB_PROOFS> {
         fixed_bases.iter().filter(|(name, _)| !unopened(name)).map(|(_, b)| *b).collect()
     }
 
+    /// (verif-hooks) The private `ipa_fixed_bases` on a caller-supplied map of fixed
+    /// bases, for the correspondence harness.
+    #[cfg(feature = "verif-hooks")]
+    pub fn verif_ipa_fixed_bases(&self, fixed_bases: &BTreeMap<String, C>) -> Vec<C> {
+        self.ipa_fixed_bases(fixed_bases)
+    }
+
     /// Aggregates the given proofs (supposedly valid w.r.t the aggregator's
     /// inner vk and their corresponding public inputs).
     ///
